@@ -10,6 +10,7 @@
 #include <cerrno>
 #include <cfenv>
 #include <clocale>
+#include <cstring>
 #include <iostream>
 #include <limits>
 #include <locale>
@@ -338,6 +339,7 @@ struct EnvSnap {
 /// "whatever an unrelated earlier computation may have left there" (ERANGE/EDOM/EINVAL, all FP flags raised).  Their
 /// values at function entry are unspecified for any library function; code that reads them without clearing them first
 /// makes results depend on what ran before on the same thread.
+uint64_t g_stream_format_changes = 0;
 bool g_inject_stale_thread_state = false;
 uint64_t g_inject_counter = 0;
 bool g_check_copy = false; ///< sequential reference only: every evaluation is repeated on a fresh copy of its model
@@ -353,7 +355,12 @@ OpResult exec_op(Context& c, const std::vector<std::string>& t, std::vector<std:
    }
    const EnvSnap before = EnvSnap::take();
    OpResult r = exec_op_inner(c, t, modified);
-   if (const char* d = EnvSnap::take().diff(before)) modified.push_back(std::string("global_env:") + d + ":" + (t[0] == "ev" && t.size() > 1 ? t[1] : t[0]));
+   if (const char* d = EnvSnap::take().diff(before)) {
+      // the format state of the standard streams influences the text of later diagnostics only, never a result: it is
+      // counted as an observation; rounding mode, FP control words and the locales influence results and are violations
+      if (std::strstr(d, "_format_state")) ++g_stream_format_changes;
+      else modified.push_back(std::string("global_env:") + d + ":" + (t[0] == "ev" && t.size() > 1 ? t[1] : t[0]));
+   }
    return r;
 }
 OpResult exec_op_inner(Context& c, const std::vector<std::string>& t, std::vector<std::string>& modified)
@@ -786,6 +793,7 @@ int exec_one(const char* planfile, bool trace)
    c.add("clock_reads", o.sim.clock_reads); c.add("random_reads", o.sim.random_reads);
    c.add("tasks_" + std::to_string(o.ntasks)); c.add("probe_edge_points_located_by_bisection", g_edge_found);
    c.add("oracle_byte_image_changed_but_all_getters_equal", g_repr_only_changes);
+   c.add("oracle_standard_stream_format_state_left_changed_observation_only", g_stream_format_changes);
    c.add("oracle_evaluations_repeated_in_a_fresh_thread", g_fresh_thread_evals); c.add("oracle_evaluations_repeated_on_a_fresh_copy", g_copy_evals); c.add("oracle_operations_with_stale_errno_and_fp_flags_injected", g_stale_injections);
    if (o.discarded) c.add("discarded_unsupported_sync");
    if (o.sim.preempt_in_op > 0 && o.ntasks >= 2) c.add("runs_with_preemption_inside_operation");
